@@ -5,6 +5,7 @@ package main
 // single-byte substitution / truncation; TLC judges them with Crc.tla (CrcTrace.tla).
 
 import (
+	"sort"
 	"bufio"
 	"bytes"
 	"io"
@@ -174,6 +175,40 @@ func crcRun(in []byte) (interface{}, error) {
 			cuts = []int{}
 		}
 		feed(msg, cuts)
+	}
+	// ---- long messages (single large writes, writes at 8-byte and power-of-two boundaries): judged by the lifted reference,
+	// which the "ref" events above bind to the TLA+ definition
+	sizes := []int{63, 64, 65, 255, 256, 257, 511, 512, 1016, 1023, 1024, 1025, 1032, 1040, 2040, 2047, 2048, 2049, 4096, 8191, 8192, 16384, 65536, 1 << 20}
+	for i := 0; i < 40; i++ {
+		sizes = append(sizes, 1000+rnd.Intn(9000), 8*(125+rnd.Intn(1000)))
+	}
+	for _, n := range sizes {
+		msg := make([]byte, n)
+		rnd.Read(msg)
+		for _, cuts := range [][]int{{}, {n / 2}, {1}, {n - 1}, {n - 8}, {8}, {1024 % n}, {rnd.Intn(n)}, {rnd.Intn(n), n - rnd.Intn(9)}} {
+			sort.Ints(cuts)
+			for name, mk := range impls {
+				h := mk()
+				ok := true
+				prev := 0
+				for _, c := range cuts {
+					if c < prev || c > n {
+						continue
+					}
+					h.Write(msg[prev:c])
+					if h.Sum64() != rdbref.CRC64(0, msg[:c]) {
+						ok = false
+					}
+					prev = c
+				}
+				h.Write(msg[prev:])
+				if h.Sum64() != rdbref.CRC64(0, msg) {
+					ok = false
+				}
+				tr.Emit(tracer.Ev{"e": "bigcrc", "impl": name, "n": n, "cuts": cuts, "ok": ok})
+				ncrc++
+			}
+		}
 	}
 	// ---- artefacts and fault enumeration
 	nfault := 0
